@@ -316,8 +316,11 @@ class RainbowDQN(RLAlgorithm):
             t_z = rewards + (1 - dones) * gamma * self.support
             t_z = t_z.clamp(min=self.v_min, max=self.v_max)
 
-            # Finds closest support element index value
-            b = (t_z - self.v_min) / self.delta_z
+            # Finds closest support element index value; float32 rounding can push the
+            # quotient above num_atoms - 1 (e.g. 51 atoms on [-10, 200]), so clamp it
+            b = ((t_z - self.v_min) / self.delta_z).clamp(
+                min=0, max=self.num_atoms - 1
+            )
 
             # Find the neighbouring indices of b
             L = b.floor().long()
